@@ -96,6 +96,25 @@ def L.get : L RState := fun r => .ok r r
 def L.set (r : RState) : L Unit := fun _ => .ok () r
 def L.ub (u : UB) : L α := fun _ => .ub u
 
+/-! ### the guards of the character readers as named predicates (tied to the source by `Gen/NLGuards.lean`,
+    theorems `C02_gen_*` in GenTie.lean) -/
+namespace G
+/-- `ReadIntWithoutSign`: `UInt new_result = result * 10 + (c - '0')` in the unsigned type of width `bits` -/
+abbrev newResult (bits result : Nat) (c : UInt8) : Nat := (result * 10 + (c.toNat - 48)) % 2 ^ bits
+/-- `if (new_result < result) ReportError("number is too big")` -/
+abbrev wrapped (newResult result : Nat) : Prop := newResult < result
+/-- `if (result > max) ReportError("number is too big")` -/
+abbrev tooBig (result max : Nat) : Prop := result > max
+/-- `DoReadOptionalInt`: `result > max && !(sign == '-' && result == max + 1)` -/
+abbrev signedTooBig (result max : Nat) (sign : UInt8) : Bool := result > max && !(sign == 45 && result == max + 1)
+/-- `ReadUInt(int &accumulator)`: `accumulator > INT_MAX - value` -/
+abbrev accOverflow (acc v : Nat) : Prop := (acc : Int) > (2147483647 : Int) - v
+/-- `BinaryReaderBase::Read`: `end_ - ptr_ < length` -/
+abbrev shortRead (len pos length : Nat) : Prop := (len : Int) - pos < length
+/-- `BinaryReader::ReadUInt`: `value < 0` -/
+abbrev negative (v : Int) : Prop := v < 0
+end G
+
 section
 variable (inp : Inp)
 
@@ -143,8 +162,8 @@ def digitsLoop (bits : Nat) : (fuel : Nat) → (p result : Nat) → Option (Nat 
   | fuel + 1, p, result =>
     let c := inp.rd p
     if isDigit c then
-      let new_result := (result * 10 + (c.toNat - 48)) % 2 ^ bits
-      if new_result < result then none else digitsLoop bits fuel (p + 1) new_result
+      let new_result := G.newResult bits result c
+      if G.wrapped new_result result then none else digitsLoop bits fuel (p + 1) new_result
     else some (result, p)
 
 /-- `TextReader::ReadIntWithoutSign<Int>`: `bits` = width of `MakeUnsigned<Int>`, `max` =
@@ -157,7 +176,7 @@ def tReadIntWithoutSign (bits max : Nat) : L (Option Nat) := fun r =>
   | none => tReport inp .toobig r
   | some (v, p) =>
     let r' := { r with pos := p }
-    if v > max then tReport inp .toobig r' else .ok (some v) r'
+    if G.tooBig v max then tReport inp .toobig r' else .ok (some v) r'
 
 def intMax : Nat := 2147483647
 
@@ -183,7 +202,7 @@ def tReadOptionalUInt : L (Option Nat) := do
 /-- `TextReader::ReadUInt(int &accumulator)` -/
 def tReadUIntAcc (acc : Nat) : L (Nat × Nat) := do
   let v ← tReadUInt inp
-  if (acc : Int) > (intMax : Int) - v then tReport inp .ioverflow
+  if G.accOverflow acc v then tReport inp .ioverflow
   else pure (v, acc + v)
 
 /-- `TextReader::ReadInt<Int>()` via `DoReadOptionalInt` (`bits` = 16 for `short`, 32 for `int`) -/
@@ -196,7 +215,7 @@ def tReadInt (bits : Nat) : L Int := do
   | none => tReport inp .int
   | some result =>
     let max := 2 ^ (bits - 1) - 1
-    if result > max && !(sign == 45 && result == max + 1) then tReport inp .toobig
+    if G.signedTooBig result max sign then tReport inp .toobig
     else pure (if sign != 45 then (result : Int) else -(result : Int))
 
 /-- `TextReader::ReadDouble` -/
@@ -293,7 +312,7 @@ def bReport (cls : ErrCls) : L α := fun r => .err ⟨cls, true, r.tok, 0⟩
 
 /-- `BinaryReaderBase::Read(length)` : returns the start offset -/
 def bRead (length : Nat) : L Nat := fun r =>
-  if (inp.len : Int) - r.pos < length then bReport .eof { r with tok := inp.len }
+  if G.shortRead inp.len r.pos length then bReport .eof { r with tok := inp.len }
   else .ok r.pos { r with pos := r.pos + length }
 
 /-- little-endian value of `n` bytes at `p` (`swap`: the bytes are reversed first, `EndiannessConverter`) -/
@@ -314,7 +333,7 @@ def bReadInt (swap : Bool) (n : Nat) : L Int := do
 /-- `BinaryReader::ReadUInt` -/
 def bReadUInt (swap : Bool) : L Nat := do
   let v ← bReadInt inp swap 4
-  if v < 0 then bReport .uint else pure v.toNat
+  if G.negative v then bReport .uint else pure v.toNat
 
 /-- `BinaryReader::ReadDouble` -/
 def bReadDouble (swap : Bool) : L F64 := do
